@@ -386,5 +386,62 @@ theorem shape_st_newChannel : Facts.shape_st_newChannel = some "362560a59c5095b8
 /-- [C03,C07,C09] `Conn.send` is the body the model transcribes -/
 theorem shape_Conn_send : Facts.shape_Conn_send = some "4d182839e3592463" := by decide
 
+/-- [C03,C05,C16] `Conn.dispatch` is the body the model transcribes -/
+theorem shape_Conn_dispatch : Facts.shape_Conn_dispatch = some "3d33b8cc2bacfd5b" := by decide
+
+/-- [C03,C05,C16] `hSet.dispatch` is the body the model transcribes -/
+theorem shape_hSet_dispatch : Facts.shape_hSet_dispatch = some "b159c1b6e35eedc0" := by decide
+
+/-- [C03,C05,C16] `Conn.runLoop` is the body the model transcribes -/
+theorem shape_Conn_runLoop : Facts.shape_Conn_runLoop = some "3e135fe163f79108" := by decide
+
+/-- [C01,C02,C03] `Conn.recv` is the body the model transcribes -/
+theorem shape_Conn_recv : Facts.shape_Conn_recv = some "109b701370dc7bfc" := by decide
+
+/-- [C04] `hSet.add` is the body the model transcribes -/
+theorem shape_hSet_add : Facts.shape_hSet_add = some "272dbafe1838442e" := by decide
+
+/-- [C04] `hSet.remove` is the body the model transcribes -/
+theorem shape_hSet_remove : Facts.shape_hSet_remove = some "1898d2b4b0edfd2c" := by decide
+
+/-- [C04] `hSet.getHandlers` is the body the model transcribes -/
+theorem shape_hSet_getHandlers : Facts.shape_hSet_getHandlers = some "9637d3dbb010d405" := by decide
+
+/-- [C04] `hNode.Remove` is the body the model transcribes -/
+theorem shape_hNode_Remove : Facts.shape_hNode_Remove = some "115aec96975afd3e" := by decide
+
+/-- [C04] `handlerSet` is the body the model transcribes -/
+theorem shape_handlerSet : Facts.shape_handlerSet = some "67befe3fc45d790c" := by decide
+
+/-- [C04] `Conn.Handle` is the body the model transcribes -/
+theorem shape_Conn_Handle : Facts.shape_Conn_Handle = some "389e544ec4ab02f9" := by decide
+
+/-- [C04] `Conn.HandleBG` is the body the model transcribes -/
+theorem shape_Conn_HandleBG : Facts.shape_Conn_HandleBG = some "2efc60d97e743353" := by decide
+
+/-- [C04] `Conn.HandleFunc` is the body the model transcribes -/
+theorem shape_Conn_HandleFunc : Facts.shape_Conn_HandleFunc = some "bed3694ecdbd08ad" := by decide
+
+/-- [C04] `Conn.handle` is the body the model transcribes -/
+theorem shape_Conn_handle : Facts.shape_Conn_handle = some "922ae6235530898e" := by decide
+
+/-- [C02,C04,C15,C16] `hNode.Handle` is the body the model transcribes -/
+theorem shape_hNode_Handle : Facts.shape_hNode_Handle = some "20a4045af74921ab" := by decide
+
+/-- [C16] `Conn.LogPanic` is the body the model transcribes -/
+theorem shape_Conn_LogPanic : Facts.shape_Conn_LogPanic = some "b18100718defbb69" := by decide
+
+/-- [C05,C13] `Conn.addIntHandlers` is the body the model transcribes -/
+theorem shape_Conn_addIntHandlers : Facts.shape_Conn_addIntHandlers = some "34995594cd6c49de" := by decide
+
+/-- [C05,C13] `Conn.addSTHandlers` is the body the model transcribes -/
+theorem shape_Conn_addSTHandlers : Facts.shape_Conn_addSTHandlers = some "3f2e602f79209909" := by decide
+
+/-- [C05,C13] `Conn.delSTHandlers` is the body the model transcribes -/
+theorem shape_Conn_delSTHandlers : Facts.shape_Conn_delSTHandlers = some "3b3b0f98101671cd" := by decide
+
+/-- [C01,C02,C03,C06,C07] `Conn.recvFor` is the body the model transcribes -/
+theorem shape_Conn_recvFor : Facts.shape_Conn_recvFor = some "273e21144237319b" := by decide
+
 
 end FactsCheck
